@@ -1,4 +1,4 @@
-import QuinnModel.Lemmas.StreamsC05Facts
+import QuinnModel.Lemmas.StreamsC05Ops
 /-
 C17 — 0-RTT at the stream layer: what `zero_rtt_rejected` resets, and that
 `retransmit_all_for_0rtt` leaves nothing unsent.
@@ -12,6 +12,32 @@ theorem sidNew_inj {sd sd' : Side} {d d' : Dir} {i j : Nat} (h : sidNew sd d i =
     simp [sidNew, Side.toNat, Dir.toNat] at h ⊢ <;> omega
 
 /-! ### zero_rtt_rejected -/
+
+theorem zeroRttDir_scalars {s s' : State} {d : Dir} (h : s.zeroRttDir d = some s') :
+    s'.maxData = s.maxData ∧ s'.unackedData = s.unackedData ∧ s'.side = s.side ∧
+    s'.next = s.next.set d 0 ∧ s'.max = s.max ∧
+    s'.initialMaxStreamDataUni = s.initialMaxStreamDataUni ∧
+    s'.initialMaxStreamDataBidiLocal = s.initialMaxStreamDataBidiLocal ∧
+    s'.initialMaxStreamDataBidiRemote = s.initialMaxStreamDataBidiRemote := by
+  unfold State.zeroRttDir at h
+  osplit h
+  all_goals (rw [← h]; exact ⟨rfl, rfl, rfl, rfl, rfl, rfl, rfl, rfl⟩)
+
+/-- what `zero_rtt_rejected` does to the sender's scalars: nothing sent in 0-RTT is outstanding and
+    the remembered connection credit is void -/
+theorem zeroRttRejected_scalars {s s' : State} (h : s.zeroRttRejected = some s') :
+    s'.maxData = 0 ∧ s'.unackedData = 0 ∧ s'.dataSent = 0 ∧
+    s'.next = ⟨0, 0⟩ ∧ s'.sendStreams = 0 ∧ s'.connectionBlocked = [] ∧
+    s'.streamsBlocked = ⟨false, false⟩ ∧ s'.side = s.side := by
+  unfold State.zeroRttRejected at h
+  osplit h
+  have h1 := zeroRttDir_scalars ‹State.zeroRttDir s Dir.bi = some _›
+  have h2 := zeroRttDir_scalars ‹State.zeroRttDir _ Dir.uni = some _›
+  rw [← h]
+  refine ⟨rfl, rfl, rfl, ?_, rfl, rfl, rfl, h2.2.2.1.trans h1.2.2.1⟩
+  simp only
+  rw [h2.2.2.2.1, h1.2.2.2.1]
+  rfl
 
 /-- the removal loop: the ids `i … i+n-1` of this side and direction are gone afterwards, everything
     else in the send map is untouched -/
@@ -90,7 +116,7 @@ theorem zeroRttRejected_no_local {s s' : State} (h : s.zeroRttRejected = some s'
   | uni =>
     rw [sc1.2.2.1] at a2
     apply a2 j
-    rw [sc1.2.2.2]
+    rw [sc1.2.2.2.1]
     simpa [Two.get, Two.set] using hj
 
 /-! ### retransmit_all_for_0rtt -/
@@ -195,6 +221,7 @@ structure Proj where
   unackedData : Nat
   maxData : Nat
   connectionBlocked : List Nat
+  streamsBlocked : Two Bool
   pendingStreams : List PStream
   pendingNext : Option PStream
   initialMaxStreamDataUni : Nat
@@ -204,7 +231,7 @@ deriving DecidableEq
 
 def State.proj (s : State) : Proj :=
   ⟨s.next, s.max, s.sendStreams, s.dataSent, s.unackedData, s.maxData, s.connectionBlocked,
-   s.pending.streams, s.pending.next, s.initialMaxStreamDataUni, s.initialMaxStreamDataBidiLocal,
+   s.streamsBlocked, s.pending.streams, s.pending.next, s.initialMaxStreamDataUni, s.initialMaxStreamDataBidiLocal,
    s.initialMaxStreamDataBidiRemote⟩
 
 theorem insert_only_maps {s s' : State} {r : Bool} {id : Nat} (h : s.insert r id = some s') :
@@ -230,7 +257,8 @@ theorem insertRemoteRange_only_maps (n : Nat) : ∀ {s s' : State} {d : Dir} {st
 /-- the projection of a fresh state after `set_params p` -/
 theorem fresh_proj {c : Config} {s0 : State} (h : State.new c = some s0) (p : Params) :
     (s0.setParams p).proj =
-      ⟨⟨0, 0⟩, ⟨p.initialMaxStreamsBidi, p.initialMaxStreamsUni⟩, 0, 0, 0, p.initialMaxData, [], [], none,
+      ⟨⟨0, 0⟩, ⟨p.initialMaxStreamsBidi, p.initialMaxStreamsUni⟩, 0, 0, 0, p.initialMaxData, [],
+       ⟨false, false⟩, [], none,
        p.initialMaxStreamDataUni, p.initialMaxStreamDataBidiLocal, p.initialMaxStreamDataBidiRemote⟩ := by
   unfold State.new at h
   osplit h
@@ -239,18 +267,18 @@ theorem fresh_proj {c : Config} {s0 : State} (h : State.new c = some s0) (p : Pa
   rw [e2, e1]
   simp only [State.proj, State.setParams, State.receivedMaxData, natMax_eq, Nat.zero_max]
 
-/-- the projection after `zero_rtt_rejected` and `set_params p`: fresh, except that `max_data` keeps the
-    larger remembered value and `unacked_data` keeps counting the rejected bytes -/
+/-- the projection after `zero_rtt_rejected` and `set_params p` is the fresh one -/
 theorem rejected_proj {s s1 : State} (h : s.zeroRttRejected = some s1) (p : Params) :
     (s1.setParams p).proj =
-      ⟨⟨0, 0⟩, ⟨p.initialMaxStreamsBidi, p.initialMaxStreamsUni⟩, 0, 0, s.unackedData,
-       Nat.max s.maxData p.initialMaxData, [], [], none,
+      ⟨⟨0, 0⟩, ⟨p.initialMaxStreamsBidi, p.initialMaxStreamsUni⟩, 0, 0, 0, p.initialMaxData, [],
+       ⟨false, false⟩, [], none,
        p.initialMaxStreamDataUni, p.initialMaxStreamDataBidiLocal, p.initialMaxStreamDataBidiRemote⟩ := by
-  obtain ⟨z1, z2, z3, z4, z5, z6⟩ := zeroRttRejected_scalars h
+  obtain ⟨z1, z2, z3, z4, z5, z6, z7, _⟩ := zeroRttRejected_scalars h
   have zp : s1.pending.streams = [] ∧ s1.pending.next = none := by
     unfold State.zeroRttRejected at h
     osplit h
     rw [← h]; exact ⟨rfl, rfl⟩
-  simp only [State.proj, State.setParams, State.receivedMaxData, z1, z2, z3, z4, z5, z6, zp.1, zp.2]
+  simp only [State.proj, State.setParams, State.receivedMaxData, z1, z2, z3, z4, z5, z6, z7, zp.1, zp.2,
+    natMax_eq, Nat.zero_max]
 
 end QM.Streams
